@@ -26,12 +26,17 @@ Verdict(tr) ==
       liveClose(c) == connectedPos # 0 /\ connectedPos < c /\ ~clientClosing(c - tr[c].nwr - tr[c].nwrf) /\ ~ended(c)
       clean == ref.viol = 0 /\ \A i \in 1..n : ~(tr[i].k \in {"wrf", "escape", "hang"}) /\ ~IsEv(tr[i], {"protocol_error", "unresponsive"})
                             /\ ~(tr[i].k = "rd" /\ tr[i].what \in {"error", "boom"})
+      faultFree == \A i \in 1..n : ~(tr[i].k \in {"wrf", "escape", "hang"}) /\ ~(tr[i].k = "rd" /\ tr[i].what \in {"error", "boom"})
       refClose == SelectSeq(ref.msgs, LAMBDA m : m.op = OpClose)
       evs == Events(tr)
       appFirst == \E c \in closeCallPos : liveClose(c) /\ (closingPos = 0 \/ c < closingPos)
       eofAfter(p) == \E i \in (p + 1)..n : tr[i].k = "rd" /\ tr[i].what = "eof"
       sockClosed == \A i \in 1..Len(Last(tr).socks) : Last(tr).socks[i].closed
   IN FirstFailing(<<
+    \* (every later clause is conditional on a clean history: a protocol error reported for a conforming stream must not excuse them)
+    <<"protocol_error_on_a_conforming_stream",
+        ~(ref.viol = 0 /\ faultFree) \/ \A i \in 1..n : ~IsEv(tr[i], {"protocol_error"})>>,
+    <<"server_close_not_reported", ~(clean /\ refClose # <<>>) \/ closingPos # 0 \/ closedPos # 0>>,
     <<"more_than_one_close_frame", Cardinality(closeFramePos) <= 1>>,
     <<"data_frame_after_close_frame",
         firstCloseFrame = 0 \/ \A i \in (firstCloseFrame + 1)..n : ~IsFrame(tr[i], {OpCont, OpText, OpBin})>>,
